@@ -97,6 +97,31 @@ func (k *cplxKey) ComputeComplexKeyHash() fnv1a.Hash {
 	return h
 }
 
+// Like every generated complex key, cplxKey ALSO has the full Equals / ComputeHash (key part and
+// params) and so satisfies SimpleKey too: NewBatchKeySet must still pick the complex-key reading.
+func (k *cplxKey) Equals(o *cplxKey) bool {
+	if k == o {
+		return true
+	}
+	if k == nil || o == nil {
+		return false
+	}
+	if (k.Params == nil) != (o.Params == nil) || (k.Params != nil && *k.Params != *o.Params) {
+		return false
+	}
+	return k.A == o.A && k.S == o.S
+}
+
+func (k *cplxKey) ComputeHash() fnv1a.Hash {
+	h := fnv1a.NewHash()
+	h.AddInt32(k.A)
+	h.AddString(k.S)
+	if k.Params != nil {
+		h.AddString(*k.Params)
+	}
+	return h
+}
+
 func (k *cplxKey) NewInstance() *cplxKey { return new(cplxKey) }
 
 func (k *cplxKey) MarshalRestLi(w restlicodec.Writer) error {
